@@ -375,6 +375,19 @@ class Tr:
         if isinstance(s, ast.Expr) and isinstance(s.value, ast.Call) and isinstance(s.value.func, ast.Attribute) \
                 and s.value.func.attr in ("append", "extend") and len(s.value.args) == 1:
             return self.list_op(s.value, env, nxt)
+        if isinstance(s, ast.Expr) and isinstance(s.value, ast.Call) and isinstance(s.value.func, ast.Attribute) \
+                and s.value.func.attr == "setdefault" and len(s.value.args) == 2 and not s.value.keywords:
+            dk = self.target_key(s.value.func.value)
+            d = env.get(dk)
+            if d is None or not (isinstance(d.ty, tuple) and d.ty[0] == "D"):
+                raise Unsupported("setdefault receiver")
+            k = self.ev(s.value.args[0], env)
+            v = self.ev(s.value.args[1], env)
+            var = cn(dk)
+            e2 = dict(env)
+            e2[dk] = V(d.ty, var)
+            return self.wrap(k.pre + v.pre, f"let {var} := dsetdefault {keyeq(d.ty[1])} {d.text} {self.render(k, d.ty[1])} "
+                                            f"{self.render(v, d.ty[2])} in\n{nxt(e2)}")
         raise Unsupported(f"statement {ast.unparse(s)[:60]}")
 
     def raise_(self, s, env):
